@@ -203,7 +203,7 @@ func Check(t *testing.T, n N, prop func(t *rapid.T)) {
 	t.Helper()
 	_ = flag.Set("rapid.checks", strconv.Itoa(Count(n)))
 	_ = flag.Set("rapid.seed", strconv.FormatUint(Seed(t.Name()), 10))
-	_ = flag.Set("rapid.failfile", filepath.Join(outDir, sanitize(t.Name())+".rapidfail"))
+	_ = flag.Set("rapid.nofailfile", "true") // replay files are written by ev.Fail; rapid's own files would be replayed first on the next run
 	st := "30s"
 	if Thorough() {
 		st = "3m"
